@@ -102,6 +102,10 @@ struct CostProgram
     double pert_delta = 0; // added to the reported gradient component
     // ---- a running cost that throws std::out_of_range in segment throw_at_seg (after its first sample); -1 = never
     int throw_at_seg = -1;
+    // ---- ... or at its throw_at_call-th invocation counted from the moment the program object was set up (-1 = never;
+    // single-threaded use only): an exception in the middle of a multi-evaluation helper such as checkGradients
+    long throw_at_call = -1;
+    mutable long call_count = 0;
     // ---- recording
     mutable Recorder *rec = nullptr;
 
